@@ -61,6 +61,27 @@ func stackBytes() uint64 {
 
 // DeclaredBinary over-approximates the sizes the input consistently declares: the sum of the
 // total-body fields of every consistent header at any offset carrying the request magic.
+// DeclaredBinaryMax is the largest total body any single consistent header declares, at any
+// offset carrying the request magic. The sequential walk below follows the declared lengths;
+// the parser does not always (a set-family frame with extras length 0 still has its 8 bytes of
+// flags and expiry read), so a frame that consistently declares gigabytes may sit at an offset
+// the walk never visits. Such inputs are outside the allocation bound and are skipped.
+func DeclaredBinaryMax(in []byte) uint64 {
+	var max uint64
+	for off := 0; off+24 <= len(in); off++ {
+		if in[off] != 0x80 {
+			continue
+		}
+		kl := uint64(binary.BigEndian.Uint16(in[off+2 : off+4]))
+		el := uint64(in[off+4])
+		total := uint64(binary.BigEndian.Uint32(in[off+8 : off+12]))
+		if kl+el <= total && total > max {
+			max = total
+		}
+	}
+	return max
+}
+
 func DeclaredBinary(in []byte) uint64 {
 	var sum uint64
 	for off := 0; off+24 <= len(in); off++ {
@@ -146,6 +167,9 @@ func Check(bin bool, in []byte, step int) (res Result) {
 	if bin {
 		declared = DeclaredBinary(in)
 		seq = DeclaredBinarySeq(in)
+		if m := DeclaredBinaryMax(in); m > seq {
+			seq = m
+		}
 		if declared > 16<<20 {
 			declared = 16 << 20 // phantom headers inside keys / opaques only loosen the bound so far
 		}
